@@ -188,7 +188,7 @@ func c18After(s, marker string) (string, error) {
 	return strings.TrimSpace(s[i+len(marker):]), nil
 }
 
-func leanBool(b bool) string {
+func c18LeanBool(b bool) string {
 	if b {
 		return "true"
 	}
@@ -252,7 +252,7 @@ func extractOutboxPart(x *ExtractCtx) error {
 		x.Note("inner "+method+" (transactional fallback)", intx[0].node)
 		fmt.Fprintf(w, "/-- `%s`: transaction argument of the innerPartStore.%s call outside every WithTx body -/\n", fd.Name.Name, method)
 		fmt.Fprintf(w, "def %sInnerTxArg : String := %s\n", lean, LeanStr(free[0].txArg))
-		fmt.Fprintf(w, "def %sInnerInsideWithTx : Bool := %s\n", lean, leanBool(free[0].insideTx))
+		fmt.Fprintf(w, "def %sInnerInsideWithTx : Bool := %s\n", lean, c18LeanBool(free[0].insideTx))
 		fmt.Fprintf(w, "/-- transaction argument of the fallback call (inner stores without the tx-free capability) -/\n")
 		fmt.Fprintf(w, "def %sFallbackTxArg : String := %s\n\n", lean, LeanStr(intx[0].txArg))
 		return nil
